@@ -95,7 +95,25 @@ CliWmcOK(e) ==
      /\ e.mc = Cardinality(Models(f, n))                                                \* exact number of models over all variables
      /\ e.wmc = Comps(WMC("real", 0, f, w, WX(1, n), n), n)[1]                          \* exact weighted sum (weights are k/8)
 CliF2bOK(e) == ListedOrder /\ Len(e.json.roots) = 1 /\ SerBddDen(e.json.nodes, e.json.roots[1]) = EvalNamed(e.in, NamesIn(e.in))
-CliC2bOK(e) == Len(e.json.roots) = 1 /\ SerBddDen(e.json.nodes, e.json.roots[1]) = EvalCnf(e.in)
+(* a CNF on large DIMACS indices: the universe is the list e.vars of the (0-based) indices that occur; variable number k of the
+   universe is e.vars[k + 1]; the emitted diagram may mention those indices only *)
+IdxIn(vars, x) == CHOOSE k \in 1 .. Len(vars) : vars[k] = x
+RECURSIVE SerBddDenW(_, _, _)
+SerBddDenW(nodes, p, vars) ==
+  IF IsStr(p, "True") THEN TrueFn
+  ELSE IF IsStr(p, "False") THEN FalseFn
+  ELSE LET n == nodes[p.Ptr.index + 1]
+           d == Ite(Lit(IdxIn(vars, n.topvar) - 1, TRUE), SerBddDenW(nodes, n.high, vars), SerBddDenW(nodes, n.low, vars))
+       IN IF p.Ptr.compl THEN Neg(d) ELSE d
+CliC2bOK(e) ==
+  IF "vars" \in DOMAIN e
+  THEN LET vs == e.vars
+           mapped == [i \in 1 .. Len(e.in) |-> [j \in 1 .. Len(e.in[i]) |->
+                        LET x == e.in[i][j] IN IF x > 0 THEN IdxIn(vs, x - 1) ELSE 0 - IdxIn(vs, (0 - x) - 1)]]
+       IN /\ Len(e.json.roots) = 1
+          /\ \A i \in 1 .. Len(e.json.nodes) : \E k \in 1 .. Len(vs) : vs[k] = e.json.nodes[i].topvar
+          /\ SerBddDenW(e.json.nodes, e.json.roots[1], vs) = EvalCnf(mapped)
+  ELSE Len(e.json.roots) = 1 /\ SerBddDen(e.json.nodes, e.json.roots[1]) = EvalCnf(e.in)
 
 (* ---- C11: the semantic hash across representations (BDD orders, vtrees, top-down orders and stores) ---- *)
 XDen(e) == IF e.repr = "sdd" THEN DenPtr(ExtendDen(<< >>, e.nodes, 1), e.root) ELSE DenBdd(e.nodes, e.root)
